@@ -179,12 +179,17 @@ func LoadConfig(yaml string) (*config.Config, error) {
 
 // RunTaint runs the real taint analysis; panics in the calling goroutine are caught and reported.
 func RunTaint(l *Loaded, c Cfg) (res TaintResult, raw *taint.AnalysisResult) {
+	return RunTaintYaml(l, c.Yaml())
+}
+
+// RunTaintYaml is RunTaint for an explicit yaml configuration.
+func RunTaintYaml(l *Loaded, yamlText string) (res TaintResult, raw *taint.AnalysisResult) {
 	defer func() {
 		if r := recover(); r != nil {
 			res.Panic = fmt.Sprint(r)
 		}
 	}()
-	cfg, err := LoadConfig(c.Yaml())
+	cfg, err := LoadConfig(yamlText)
 	if err != nil {
 		res.Err = "config: " + err.Error()
 		return
